@@ -350,6 +350,8 @@ func cmdCheck(argv []string) int {
 	}
 	sort.Strings(names)
 
+	replayExec = ex
+	replayFns = ld.Fns
 	known := loadKnown()
 	baseline := loadBaseline()[id]
 	inBaseline := map[string]bool{}
